@@ -824,6 +824,17 @@ func (base *Type) mixin(derived *Type) {
 
 	if derived.enums == nil {
 		derived.enums = base.enums
+	} else {
+		// RFC7950 Sec 9.6.4 - a derived type names a subset of the base type's enums,
+		// which keep the values they have there
+		for _, item := range derived.enums {
+			for _, inherited := range base.enums {
+				if inherited.ident == item.ident && !item.valSet {
+					item.val = inherited.val
+					item.valSet = true
+				}
+			}
+		}
 	}
 	if len(derived.base) == 0 {
 		derived.base = base.base
@@ -850,11 +861,19 @@ func (base *Type) mixin(derived *Type) {
 		derived.fractionDigits = base.fractionDigits
 	}
 
-	// merge bits
+	// RFC7950 Sec 9.7.4 - a derived type names a subset of the base type's bits,
+	// which keep the positions they have there
 	if derived.bits == nil {
 		derived.bits = base.bits
-	} else if base.bits != nil {
-		derived.bits = append(derived.bits, base.bits...)
+	} else {
+		for _, item := range derived.bits {
+			for _, inherited := range base.bits {
+				if inherited.ident == item.ident && !item.positionSet {
+					item.Position = inherited.Position
+					item.positionSet = true
+				}
+			}
+		}
 	}
 
 	derived.format = base.format
